@@ -17,18 +17,32 @@ GUARD = "FINAM_VERIF"
 T0 = dt.datetime(2000, 1, 1)
 
 
+TICK = dt.timedelta(days=1)
+
+
+def set_tick(tick=None):
+    """Length of one specification tick as [num, den] seconds (default one day).  The specifications count
+    time in integer ticks; which physical duration a tick has is a choice of the harness (days, seconds,
+    fractions of a second, microseconds) and must not matter for finam."""
+    global TICK  # pylint: disable=global-statement
+    num, den = tick or (86400, 1)
+    us, rem = divmod(num * 1000000, den)
+    if rem:
+        raise ValueError(f"tick {num}/{den} s is not a whole number of microseconds")
+    TICK = dt.timedelta(microseconds=us)
+
+
 def day(n):
-    """Tick -> datetime (one tick = one day unless a check says otherwise)."""
-    return T0 + dt.timedelta(days=n)
+    """Tick -> datetime (one tick = one day unless the case says otherwise, see set_tick)."""
+    return T0 + n * TICK
 
 
 def ticks(t, per_day=1):
     """datetime -> integer tick (exact, raises when not on the tick grid)."""
     if t is None:
         return -1
-    sec = (t - T0).total_seconds() * per_day
-    n, rem = divmod(sec, 86400)
-    if rem != 0:
+    n, rem = divmod((t - T0) * per_day, TICK)
+    if rem:
         raise ValueError(f"time {t} is not on the tick grid")
     return int(n)
 
